@@ -80,6 +80,22 @@ Example C09_meek_guarded_overelects_refuted :
   end.
 Proof. vm_compute. reflexivity. Qed.
 
+(* ... and FALSE for meek-prf too (open findings K20/K21): fixed point, nine places, ballot lines with multiplier 950.  A line's
+   share of an elected candidate is truncated and then multiplied, so after the keep-factor update W1 and W2 hold slightly LESS
+   than the quota; C is excluded, its 358 ballots exhaust, the quota falls to 492.652882110, A and B are exactly tied at
+   492.652882200 and step B.2.c elects both with one seat left.  The model agrees with the code on this input (corpus K20). *)
+Definition k20_profile : profile :=
+  mkProfile 3 2330
+    [mkPcand 1 1 1 "W1" "1" false false; mkPcand 2 2 2 "W2" "2" false false; mkPcand 3 3 3 "A" "3" false false;
+     mkPcand 4 4 4 "B" "4" false false; mkPcand 5 5 5 "C" "5" false false]
+    [(950, [1; 2; 3]); (950, [2; 1; 4]); (2, [1]); (35, [3]); (35, [4]); (358, [5])] [].
+Example C09_meek_prf_overelects_refuted :
+  match run_count (Fixed 9 9) (mkConfig "meek-prf" MMeek 3 2330 false false false false 6) (2 ^ 20)%positive RMeekPrf k20_profile with
+  | Done s false => nlen (electeds _ s) = 4 /\ map (@cid _) (defeateds _ s) = [5]
+  | _ => False
+  end.
+Proof. vm_compute. split; reflexivity. Qed.
+
 (* ---- ... for every ballot file the reader accepts (see Props/C02.v for the reading of parse_file / to_count_profile) ---- *)
 From Droop Require Import Model.KernelBase Model.Profile Model.EndToEnd Proofs.EndToEndLink.
 
